@@ -107,6 +107,8 @@ class Sched:
             finally:
                 ct.finished = True
                 ct.pending = None
+                # the OS reuses thread identifiers: a later thread must not be mistaken for this one
+                sched.by_ident.pop(threading.get_ident(), None)
                 sched.wake.release()
         thread.run = wrapped
         return ct
@@ -142,6 +144,14 @@ class Sched:
                 if not self.wake.acquire(timeout=self.watchdog):
                     self.result = 'WATCHDOG'
                     self.deadlock_info = {'stuck_outside_yield_point': last.label if last else None}
+                    try:
+                        import sys as _sys
+                        import traceback as _tb
+                        fr = _sys._current_frames().get(last.thread.ident) if last else None
+                        if fr is not None:
+                            self.deadlock_info['stack'] = ''.join(_tb.format_stack(fr, limit=8))[-1500:]
+                    except Exception:
+                        pass
                     self.abort()
                     return self.result
             first = False
@@ -175,7 +185,10 @@ class Sched:
         deadline = _time_mod.time() + 5
         for ct in self.threads:
             if ct.thread.ident is not None:
-                _real_join(ct.thread, max(0.0, deadline - _time_mod.time()))
+                try:
+                    _real_join(ct.thread, max(0.0, deadline - _time_mod.time()))
+                except RuntimeError:
+                    pass                 # registered but never started
 
 
 # ------------------------------------------------------------------ controlled primitives
